@@ -171,6 +171,25 @@ def place_supernet(torch, m, spec, rng, g):
     return done
 
 
+def randomize_bn(torch, m, rng, g, affine_ok=True):
+    """BatchNorm hyper-parameters other than the defaults: eps, momentum, affine; small running variances so that eps matters"""
+    import torch.nn as nn
+    info = {}
+    for n, mod in m.named_modules():
+        if type(mod) in (nn.BatchNorm1d, nn.BatchNorm2d):
+            mod.eps = rng.choice([1e-5, 1e-3, 1e-2, 0.1])
+            mod.momentum = rng.choice([0.1, 0.01, None])
+            with torch.no_grad():
+                mod.running_var.copy_(torch.rand(mod.running_var.shape, generator=g) * 0.99 + 0.01)
+                mod.running_mean.copy_(torch.randn(mod.running_mean.shape, generator=g))
+            if affine_ok and rng.random() < 0.25:
+                mod.affine = False
+                mod.weight = None
+                mod.bias = None
+            info[n] = [mod.eps, mod.momentum, mod.affine]
+    return info
+
+
 def add_training_branch(torch, m, spec, variant, rng):
     """make forward() READ self.training (torch.fx bakes Python control flow at trace time): the eval-time function is
     what the property is about.  variants:
@@ -395,6 +414,8 @@ def run_case(torch, seed, cfg):
             m = m.to(torch.float64)
         o['placed'] = placed
         o['sn_blocks'] = sn_blocks
+        if cfg.get('bnhp'):
+            o['bnhp'] = randomize_bn(torch, m, rng, g, affine_ok=cfg['bnhp'] != 'affine-only')
         excl = ()
         if cfg.get('excl') and method == 'pit':
             c2 = [i for i in convs if i not in placed]
@@ -530,7 +551,7 @@ def run_case(torch, seed, cfg):
                         folds.append({'layer': cn, 'channel': ch_,
                                       'w': [float(v) for v in w0[ch_].reshape(-1)][:24],
                                       'b': None if b0 is None else float(b0[ch_]),
-                                      'g': float(sd0[bn_ + '.weight'][ch_]), 'be': float(sd0[bn_ + '.bias'][ch_]),
+                                      'g': float(sd0[bn_ + '.weight'][ch_]) if bn_ + '.weight' in sd0 else 1.0, 'be': float(sd0[bn_ + '.bias'][ch_]) if bn_ + '.bias' in sd0 else 0.0,
                                       'mu': float(sd0[bn_ + '.running_mean'][ch_]), 'r': float(r[ch_]),
                                       'w_folded': [float(v) for v in L.weight.detach()[ch_].reshape(-1)][:24],
                                       'b_folded': None if L.bias is None else float(L.bias.detach()[ch_])})
